@@ -53,7 +53,11 @@ func init() {
 		ID:    "C02",
 		Title: "Output is independent of the redacted values (non-interference)",
 		Jobs: func(e *Engine, tier string) []*Job {
-			return twoRunJobs("H_c02", corpusFor(tier, nil), "S,D,O,B64,N,B,IP", map[string]string{})
+			p := map[string]string{}
+			if tier == "thorough" {
+				p["allowEmpty"] = "yes"
+			}
+			return twoRunJobs("H_c02", corpusFor(tier, nil), "S,D,O,B64,N,B,IP", p)
 		},
 		Functions: walkerFunctions,
 		Witness:   []string{"emitted"},
@@ -117,6 +121,40 @@ func init() {
 		Bounds:      treeBounds("namespace / field-name pseudonymisation, encrypt mode, selective mode; e-mail-shaped replacement text"),
 		Assumptions: []string{"the emitted rope is read back as the token stream it was written from (unquote(jstr(x)) = x, number text unchanged): contract of encoding/json, engine/intr_core.go tokenizeRope"},
 		Trusted:     commonTrusted,
+	}
+	propChecks["C12"] = &PropCheck{
+		ID: "C12", Title: "Namespace pseudonymisation is complete, consistent and confined",
+		Jobs: func(e *Engine, tier string) []*Job {
+			specs := nsCorpus(tier)
+			if tier != "quick" {
+				specs = append(specs, corpusFor("quick", func(t tplSpec) bool { return t.Tags["pipeline"] || t.Tags["envelope"] })...)
+			}
+			return templateJobs("H_c12", specs, map[string]string{})
+		},
+		Functions: walkerFunctions, Witness: []string{"emitted"},
+		Bounds: map[string]any{
+			"templates": "engine/spec.go nsCorpus: every command verb the tool declares, every envelope (command / cmd / originatingCommand / no command / other components with attr.ns), namespace-bearing stages ($lookup, $graphLookup, $unionWith, $merge, $out; string and document forms; nested in $facet / sub-pipelines)",
+			"names":     "database and foreign collection names: arbitrary single components; the operation's collection name: arbitrary with <= 2 dots and <= 2 leading '$'",
+			"flags":     "redactNamespaces on (and off for the confinement comparison); replacement text symbolic; numbers/booleans/IPs switches fixed off",
+		},
+		Assumptions: []string{"pseudonym form as documented: '<replacement>_<hex of first 8 bytes of SHA-256(component)>', component-wise, leading '$' ignored (harness/zz_verif_h_ns.go verifPseudoName)",
+			"a name is not a substring of output text that does not depend on it"},
+		Trusted: commonTrusted,
+	}
+	propChecks["C13"] = &PropCheck{
+		ID: "C13", Title: "Pseudonyms are a stable, collision-free, component-wise function of the name",
+		Jobs: func(e *Engine, tier string) []*Job {
+			return []*Job{{Name: "HashName", Harness: "H_c13", Lines: map[string]*Template{}, Params: map[string]string{}}}
+		},
+		Functions: []string{"HashName"}, Witness: []string{"emitted"},
+		Bounds: map[string]any{
+			"name":        "arbitrary string with <= 2 dots and <= 2 leading '$' (engine split / trim bounds); component contents and lengths unbounded",
+			"replacement": "arbitrary string",
+			"side_table":  "arbitrary pre-state entries for the queried names",
+		},
+		Assumptions: []string{"collision-freeness of SHA-256 truncated to 64 bits is outside the claim: injectivity is shown relative to the 8-byte digest (equal pseudonyms imply equal digests, all 8 bytes used)",
+			"cross-process stability: HashName reaches no clock, randomness or environment call (any such call would abort the path as unmodelled)"},
+		Trusted: commonTrusted,
 	}
 	propChecks["C01"] = &PropCheck{
 		ID:    "C01",
